@@ -56,11 +56,12 @@ var profiles = map[string]map[string]int{
 }
 
 func init() {
+	profiles["extreme"] = map[string]int{"CFA": 6, "CBA": 8, "CAN": 1, "BID": 44, "MOD": 8, "ADDMSG": 0, "PARAMS": 1, "APIADD": 14, "APIUPD": 3, "BLOCK": 18, "SEND": 1, "LISTEN": 0, "GENESIS": 1, "FBLOCK": 0, "QUERY": 1}
 	// crowd: every account may bid in every auction; many bidders per settlement
 	profiles["crowd"] = map[string]int{"CFA": 3, "CBA": 5, "CAN": 0, "BID": 60, "MOD": 8, "ADDMSG": 0, "PARAMS": 1, "APIADD": 4, "APIUPD": 2, "BLOCK": 10, "SEND": 1, "LISTEN": 0, "GENESIS": 1, "FBLOCK": 0, "QUERY": 2}
 }
 
-var profileOrder = []string{"fixed", "batch", "multi", "hooks", "genesis", "fault", "malformed", "batch", "crowd", "fixed", "crowd", "multi"}
+var profileOrder = []string{"fixed", "batch", "multi", "hooks", "genesis", "fault", "malformed", "batch", "crowd", "fixed", "crowd", "multi", "extreme"}
 
 func NewGen(seed uint64, e *Env, profile string) *Gen {
 	return &Gen{r: &Rng{seed}, e: e, profile: profile, w: profiles[profile]}
@@ -89,6 +90,10 @@ func (g *Gen) price() string {
 	if g.r.P(g.bad()) {
 		return g.r.Pick("0", "nil", "-1000000000000000000")
 	}
+	if g.profile == "extreme" && g.r.P(40) {
+		return g.r.Pick("1", "7", "1000", "1000000000000000000000000000000", "10000000000000000000000000000000000000000000000000000000000",
+			"100000000000000000000000000000000000000000000000000000000000000000000000000000", "999999999999999999999999999999999999")
+	}
 	if g.r.P(15) {
 		return ulpPrices[g.r.N(len(ulpPrices))]
 	}
@@ -113,6 +118,12 @@ func (g *Gen) normalPrice() string {
 func (g *Gen) amount() string {
 	if g.r.P(g.bad()) {
 		return g.r.Pick("0", "nil", "-5")
+	}
+	if g.profile == "extreme" && g.r.P(70) {
+		// 2^64 .. 2^224
+		x := new(big.Int).Lsh(big.NewInt(1), uint(64+g.r.N(161)))
+		x.Add(x, big.NewInt(int64(g.r.N(1000))))
+		return x.String()
 	}
 	switch g.r.N(10) {
 	case 0:
@@ -683,6 +694,16 @@ func (g *Gen) addMsg() Op {
 }
 
 // Next yields the next operation of the history
+// SafeNext: the generator's own arithmetic may overflow in the extreme profile; a block at the current time then
+func (g *Gen) SafeNext() (o Op) {
+	defer func() {
+		if r := recover(); r != nil {
+			o = NewOp("BLOCK", "t", fmt.Sprint(g.now()))
+		}
+	}()
+	return g.Next()
+}
+
 func (g *Gen) Next() Op {
 	g.nOps++
 	as := g.auctions()
